@@ -321,6 +321,9 @@ func (t *loopTr) resliceOf(s *ast.AssignStmt) (types.Object, ast.Expr) {
 }
 
 func (t *loopTr) reslice(s *ast.AssignStmt, o types.Object, lo ast.Expr) []binding {
+	if bs, ok := t.ifaceLocalReslice(s, o, lo); ok { // stage 11 (loops_iface.go): a local slice
+		return bs
+	}
 	name, ok := t.vars[o]
 	if !ok || !t.params[o] {
 		t.fail(s, "reslicing `%s = %s[k:]` is supported for slice parameters only", o.Name(), o.Name())
